@@ -310,4 +310,48 @@ theorem aggregate_spec {es : List Entry} {gs : List Group} (h : aggregate es = .
     (∀ κ ∈ keysOf es, ∃ g ∈ gs, mkGroup κ (groupOf es κ) = .ok g) :=
   mapM_except_ok _ _ _ h
 
+theorem mapM_except_total {α β ε : Type} (f : α → Except ε β) :
+    ∀ l : List α, (∀ a ∈ l, ∃ b, f a = .ok b) → ∃ r, l.mapM f = .ok r
+  | [], _ => ⟨[], by simp [List.mapM_nil, pure, Except.pure]⟩
+  | a :: l, h => by
+    obtain ⟨b, hb⟩ := h a (by simp)
+    obtain ⟨r, hr⟩ := mapM_except_total f l (fun a' ha' => h a' (by simp [ha']))
+    exact ⟨b :: r, by simp [List.mapM_cons, hb, hr, bind, Except.bind, pure, Except.pure]⟩
+
+/-! ### the four single-qubit events on binary rows -/
+
+theorem pauliHit_partition (x z : Nat) (hx : x < 2) (hz : z < 2) :
+    (pauliHit 0 x z).toNat = (pauliHit 1 x z).toNat + (pauliHit 2 x z).toNat + (pauliHit 3 x z).toNat := by
+  have hx' : x = 0 ∨ x = 1 := by omega
+  have hz' : z = 0 ∨ z = 1 := by omega
+  rcases hx' with rfl | rfl <;> rcases hz' with rfl | rfl <;> decide
+
+theorem getD_lt_two (r : List Nat) (h : ∀ x ∈ r, x < 2) (i : Nat) : r.getD i 0 < 2 := by
+  rw [List.getD_eq_getElem?_getD]
+  cases hi : r[i]? with
+  | none => simp
+  | some v => simpa using h v (List.mem_of_getElem? hi)
+
+theorem countP_toNat {α : Type} (p : α → Bool) : ∀ l : List α, l.countP p = (l.map fun a => (p a).toNat).sum
+  | [] => rfl
+  | a :: l => by
+    cases h : p a <;> simp [h, countP_toNat p l] <;> omega
+
+theorem specPattern_partition (kq i : Nat) (P : List Trial) (hbin : ∀ t ∈ P, ∀ x ∈ t.row, x < 2) :
+    specPattern kq i 0 P = specPattern kq i 1 P + specPattern kq i 2 P + specPattern kq i 3 P := by
+  unfold specPattern
+  induction P with
+  | nil => rfl
+  | cons t P ih =>
+    have ih := ih (fun t' ht' => hbin t' (by simp [ht']))
+    have hb := hbin t (by simp)
+    have := pauliHit_partition (t.row.getD i 0) (t.row.getD (kq + i) 0) (getD_lt_two _ hb _) (getD_lt_two _ hb _)
+    rw [List.countP_cons, List.countP_cons, List.countP_cons, List.countP_cons, ih]
+    revert this
+    cases pauliHit 0 (t.row.getD i 0) (t.row.getD (kq + i) 0) <;>
+    cases pauliHit 1 (t.row.getD i 0) (t.row.getD (kq + i) 0) <;>
+    cases pauliHit 2 (t.row.getD i 0) (t.row.getD (kq + i) 0) <;>
+    cases pauliHit 3 (t.row.getD i 0) (t.row.getD (kq + i) 0) <;>
+    simp <;> omega
+
 end Panqec.An
